@@ -184,6 +184,31 @@ fn route_elev(net: &[Link], route: &[LinkIdx], x: f64) -> Option<f64> {
     None
 }
 
+
+/// cumulative curve resistance at path offset x, by walking the links' own heading points
+/// (links without headings are tangent track): independent of PathTpc
+fn route_curve_cum(net: &[Link], route: &[LinkIdx], tp: &TrainParams, x: f64) -> f64 {
+    let rev = uc::REV.value;
+    let one_degree = uc::DEG.value / (uc::FT.value * 100.0);
+    let (c0, c1, c2) = (tp.curve_coeff_0.value, tp.curve_coeff_1.value, tp.curve_coeff_2.value);
+    let mut base = 0.0;
+    let mut cum = 0.0;
+    for li in route {
+        let l = &net[li.idx()];
+        for w in l.headings.windows(2) {
+            let (a, bb) = (base + w[0].offset.value, base + w[1].offset.value);
+            if x <= a { return cum; }
+            let dh = (w[1].heading.value - w[0].heading.value).abs();
+            let curv = dh.min(rev - dh) / (bb - a);
+            let coeff = if curv < one_degree { c0 * curv } else { c0 * one_degree + c1 * (curv - one_degree) + c2 * (curv - one_degree) * (curv - one_degree) };
+            cum += coeff * (x.min(bb) - a);
+            if x <= bb { return cum; }
+        }
+        base += l.length.value;
+    }
+    cum
+}
+
 fn prc_val(p: &PathResCoeff, x: f64) -> f64 {
     p.res_net.value + p.res_coeff.value * (x - p.offset.value)
 }
@@ -216,7 +241,7 @@ fn path_case(ctx: &mut Ctx, r: &mut Rng, long: bool, for_sim: bool) -> Option<Bu
         len_hi: if for_sim { 3500 } else { *r.pick(&[64, 2000, 20000]) },
         max_elev_pts: if for_sim { 4 } else { 6 },
         max_grade: if for_sim { 0.012 } else { 0.03 },
-        max_speed_limits: if for_sim { 2 } else { 3 },
+        max_speed_limits: if for_sim { 4 } else { 3 },
         speed_lo: if for_sim { 8.0 } else { 5.0 },
         use_speed_sets_map: !for_sim,
         cat_power: true,
@@ -355,6 +380,16 @@ fn path_case(ctx: &mut Ctx, r: &mut Rng, long: bool, for_sim: bool) -> Option<Bu
         }
         if let Some(d) = bad { ctx.fail("C06", "curves_are_heading_change_rates", "path", d, input.clone()); }
     }
+    ctx.checked("C06", "cumulative_values_continuous");
+    for (name, pts) in [("grades", t.grades()), ("curves", t.curves())] {
+        for w in pts.windows(2) {
+            let want = w[0].res_net.value + w[0].res_coeff.value * (w[1].offset.value - w[0].offset.value);
+            if !close(w[1].res_net.value, want, 1000.0) {
+                ctx.fail("C06", "cumulative_values_continuous", "path", format!("{}: cumulative value {} at offset {} but the previous point and its slope give {}", name, w[1].res_net.value, w[1].offset.value, want), input.clone());
+                break;
+            }
+        }
+    }
     ctx.checked("C06", "catenary_shifted");
     let got: Vec<(f64, f64, f64)> = t.cat_power_limits().iter().map(|c| (c.offset_start.value, c.offset_end.value, c.power_limit.value)).collect();
     if got != cats { ctx.fail("C06", "catenary_shifted", "path", "catenary limits are not the links' sections shifted by the link base offsets".into(), input.clone()); }
@@ -375,10 +410,19 @@ fn bad_route_case(ctx: &mut Ctx, r: &mut Rng) {
         2 => vec![LinkIdx::new(1), LinkIdx::new(0)],
         _ => vec![LinkIdx::new(n), LinkIdx::new(n)],
     };
-    let pre = PathTpc::new(tp);
-    let res = guard(|| { let mut x = pre.clone(); x.extend(&net, &route).map(|_| x) });
+    // the break may fall inside one extend call or exactly on the boundary between two calls
+    // (a contiguous prefix is extended first, then the offending link alone)
+    let on_boundary = r.chance(0.5);
+    let mut pre = PathTpc::new(tp);
+    let mut rest: &[LinkIdx] = &route;
+    if on_boundary {
+        // longest prefix that is itself acceptable: extend it in its own call
+        let ok_prefix = guard(|| { let mut x = pre.clone(); x.extend(&net, &route[..1]).map(|_| x) });
+        if let Some(Ok(x)) = ok_prefix { pre = x; rest = &route[1..]; ctx.count("train.path.bad_route_on_call_boundary"); }
+    }
+    let res = guard(|| { let mut x = pre.clone(); x.extend(&net, rest).map(|_| x) });
     let a = match &res { None => "panic".to_string(), Some(Err(_)) => "err".into(), Some(Ok(x)) => format!("ok {}", tok_tpc_out(x)) };
-    ctx.op("C06", "tpc_extend", &format!("{} {} {}", seq(&net, tok_link), tok_tpc_in(&pre, &tp), seq(&route, |l| l.idx().to_string())), &a);
+    ctx.op("C06", "tpc_extend", &format!("{} {} {}", seq(&net, tok_link), tok_tpc_in(&pre, &tp), seq(rest, |l| l.idx().to_string())), &a);
     ctx.checked("C06", "non_contiguous_rejected");
     ctx.count("train.path.bad_route");
     if !matches!(res, Some(Err(_))) {
@@ -419,7 +463,7 @@ fn gen_train_consist(r: &mut Rng) -> Consist {
 }
 
 /// C07 clauses on a state right after update_res (front at st.offset)
-fn oracle_res(ctx: &mut Ctx, case: &str, tpc: &PathTpc, res_after: &TrainRes, st: &TrainState, input: &serde_json::Value) {
+fn oracle_res(ctx: &mut Ctx, case: &str, tpc: &PathTpc, res_after: &TrainRes, st: &TrainState, input: &serde_json::Value, truth: Option<(&[Link], &[LinkIdx], &TrainParams)>) {
     let v = serde_json::to_value(res_after).unwrap();
     let s = &v["Strap"];
     let (bf, rr, db, cd) = (jf(s, &["bearing", "force"]), jf(s, &["rolling", "ratio"]), jf(s, &["davis_b", "davis_b"]), jf(s, &["aerodynamic", "cd_area"]));
@@ -436,6 +480,18 @@ fn oracle_res(ctx: &mut Ctx, case: &str, tpc: &PathTpc, res_after: &TrainRes, st
     chk(ctx, "grade_resistance", close(st.res_grade.value, eg, w * 0.05), format!("res_grade {} != weight*(elev_front-elev_back)/length {}", st.res_grade.value, eg));
     let ec = (profile_val(tpc.curves(), front) - profile_val(tpc.curves(), back)) / len * w;
     chk(ctx, "curve_resistance", close(st.res_curve.value, ec, w * 0.05), format!("res_curve {} != {}", st.res_curve.value, ec));
+    if let Some((net, route, tp)) = truth {
+        // the same two forces against the NETWORK's own geometry (not the path profile handed to the model)
+        let total: f64 = route.iter().map(|l| net[l.idx()].length.value).sum();
+        if back >= 0.0 && front <= total {
+            if let (Some(ef), Some(eb)) = (route_elev(net, route, front), route_elev(net, route, back)) {
+                let want = (ef - eb) / len * w;
+                chk(ctx, "grade_resistance_vs_network", close(st.res_grade.value, want, w * 0.05), format!("res_grade {} but the network's own elevations give {} (front {}, rear {})", st.res_grade.value, want, front, back));
+            }
+            let want = (route_curve_cum(net, route, tp, front) - route_curve_cum(net, route, tp, back)) / len * w;
+            chk(ctx, "curve_resistance_vs_network", close(st.res_curve.value, want, w * 0.05), format!("res_curve {} but the network's own headings give {} (front {}, rear {})", st.res_curve.value, want, front, back));
+        }
+    }
     chk(ctx, "rolling", close(st.res_rolling.value, rr * w, w), format!("res_rolling {} != {}", st.res_rolling.value, rr * w));
     chk(ctx, "davis_b", close(st.res_davis_b.value, db * st.speed.value * w, w), format!("res_davis_b {}", st.res_davis_b.value));
     chk(ctx, "bearing", st.res_bearing.value == bf, format!("res_bearing {} != {}", st.res_bearing.value, bf));
@@ -516,7 +572,7 @@ fn set_speed_case(ctx: &mut Ctx, r: &mut Rng, steps: usize) {
                 ctx.count("train.ss.step_ok");
                 ctx.op("C07", "update_res", &format!("{} {} {} {} fwd", tok_prcs(tpc.grades()), tok_prcs(tpc.curves()), tok_res(&pre.train_res), tok_state(&pre.state)),
                     &format!("ok {} {}", tok_res(res_after), tok_state(st_res)));
-                oracle_res(ctx, &step_id, &tpc, res_after, st_res, &input);
+                oracle_res(ctx, &step_id, &tpc, res_after, st_res, &input, Some((&bu.net, &bu.route, &bu.tp)));
                 ctx.op("C14,C11", "ss_required_pwr", &format!("{} {} {} {} {}", cstate_tok(&man.loco_con), tok_state(st_res), f(vp), f(vc), f(dt)), &format!("ok {}", tok_state(st_pwr)));
                 ctx.op("C12,C14", "ss_integrate", &format!("{} {} {} {} {}", tok_lps(tpc.link_points()), tok_state(st_pwr), f(vp), f(vc), f(tc)), &format!("ok {}", tok_state(&sim.state)));
                 let s = sim.state;
@@ -753,7 +809,7 @@ fn speed_limit_case(ctx: &mut Ctx, r: &mut Rng, max_steps: usize) {
         if let (Some(Ok((res_after, st_res))), Some(r2)) = (&sub, &sub2) {
             ctx.op("C07", "update_res", &format!("{} {} {} {} fwd", tok_prcs(tpc.grades()), tok_prcs(tpc.curves()), tok_res(&pre.train_res), tok_state(&pre.state)),
                 &format!("ok {} {}", tok_res(res_after), tok_state(st_res)));
-            oracle_res(ctx, &step_id, &tpc, res_after, st_res, &input);
+            { let n_ext = tpc.link_points().len() - 1; oracle_res(ctx, &step_id, &tpc, res_after, st_res, &input, Some((&bu.net, &bu.route[..n_ext.min(bu.route.len())], &bu.tp))); }
             let fm: f64 = mid.loco_con.force_max().map(|x| x.value).unwrap_or(f64::NAN);
             let a = match r2 { Err(_) => "err".to_string(), Ok(()) => format!("ok {} {} {}", tok_fric(&man.fric_brake), bp_points(&man.braking_points).1, tok_state(&man.state)) };
             ctx.op("C03,C12", "sl_required_pwr", &format!("{} {} {} {} {}", f(fm), cstate_tok(&mid.loco_con), tok_fric(&mid.fric_brake), tok_bp(&mid.braking_points), tok_state(st_res)), &a);
@@ -778,11 +834,20 @@ fn speed_limit_case(ctx: &mut Ctx, r: &mut Rng, max_steps: usize) {
                 chk(ctx, "C03", "speed_nonnegative", s.speed.value >= 0.0, format!("speed {} < 0 at offset {}", s.speed.value, s.offset.value));
                 chk(ctx, "C03", "target_le_limit", s.speed_target.value <= s.speed_limit.value, format!("target {} > limit {}", s.speed_target.value, s.speed_limit.value));
                 // the limit in force is never above the posted profile at the position the step started from
-                let posted = crate::b_sp::val_at(tpc.speed_points(), p.offset.value).abs();
-                chk(ctx, "C03", "limit_le_posted", s.speed_limit.value <= posted, format!("limit in force {} > posted {} at {}", s.speed_limit.value, posted, p.offset.value));
+                // posted limit at the position the step started from, read from the NETWORK's restrictions
+                // (for the links already in the path), not from the profile handed to the controller
+                let n_ext = tpc.link_points().len() - 1;
+                let posted_list = crate::b_sp::posted_from_network(&bu.net, &bu.route[..n_ext.min(bu.route.len())], &bu.tp);
+                let posted = crate::b_sp::tightest_at(&posted_list, bu.tp.speed_max.value, p.offset.value);
+                // two different ways for the limit in force to exceed the posted one: the speed profile handed to the
+                // controller is itself too high there (a path-profile defect), or the profile is right and a braking-curve
+                // point carries a higher value (the listed known finding)
+                let profile_here = crate::b_sp::val_at(tpc.speed_points(), p.offset.value).abs();
+                chk(ctx, "C03", "profile_le_posted", profile_here <= posted, format!("speed profile of the path is {} but the network posts {} at {}", profile_here, posted, p.offset.value));
+                chk(ctx, "C03", "limit_le_posted", s.speed_limit.value <= posted || profile_here > posted, format!("limit in force {} > posted {} at {}", s.speed_limit.value, posted, p.offset.value));
                 // the speed itself against the posted profile; when the limit in force is already above the posted one the
                 // step is reported by limit_le_posted (one defect, one report)
-                chk(ctx, "C03", "speed_le_posted", p.speed.value <= posted * (1.0 + 1e-12) || s.speed_limit.value > posted,
+                chk(ctx, "C03", "speed_le_posted", p.speed.value <= posted * (1.0 + 1e-12) || s.speed_limit.value > posted || profile_here > posted,
                     format!("speed {} > posted limit {} at {} although the limit in force is {}", p.speed.value, posted, p.offset.value, s.speed_limit.value));
                 chk(ctx, "C03", "speed_le_limit_in_force", p.speed.value <= s.speed_limit.value, format!("speed {} > limit in force {} at {}", p.speed.value, s.speed_limit.value, p.offset.value));
                 chk(ctx, "C12", "time_advances_by_dt", close(s.time.value - p.time.value, dt, 1.0), "time".into());
